@@ -43,13 +43,26 @@ func init() {
 					}
 				}
 			}
+			// every combination of the optional parts of a version (epoch, pre / post / dev phases,
+			// revision, build) on one release shape, as triples: the order between the parts is where
+			// the grammars are intricate, and the 's' set has each part alone
+			for _, eco := range ecosystems {
+				ph := phaseTemplates(eco, tier)
+				for _, a := range ph {
+					for _, b := range ph {
+						for _, c := range ph {
+							out = append(out, &Config{ID: fmt.Sprintf("C01/phases/%s/%s|%s|%s", eco, a, b, c), Pkg: zzhPkg, Func: "C01Triple", Args: []ArgSpec{ArgStr(eco), ArgTmpl(a), ArgTmpl(b), ArgTmpl(c)}})
+						}
+					}
+				}
+			}
 			return out
 		},
 		Bounds: func(tier string) string {
 			if tier == "thorough" {
-				return "pairs over the 'l' grammar templates, triples over (a thinned) 'm' set, per ecosystem; digit runs and letter runs as written in templates.go; ASCII only"
+				return "part-combination triples (phaseTemplates: every combination of the optional parts of the grammar on one release shape, 6-16 templates per ecosystem, cubed); pairs over the 'l' grammar templates, triples over (a thinned) 'm' set, per ecosystem; digit runs and letter runs as written in templates.go; ASCII only"
 			}
-			return "pairs over the 'm' grammar templates, triples over the 's' set (8 per ecosystem); digit runs 1-2, letter runs 1-9 as written in templates.go; ASCII only"
+			return "part-combination triples (phaseTemplates: every combination of the optional parts of the grammar on one release shape, 6-12 templates per ecosystem, cubed); pairs over the 'm' grammar templates, triples over the 's' set (8 per ecosystem); digit runs 1-2, letter runs 1-9 as written in templates.go; ASCII only"
 		},
 	})
 }
@@ -64,4 +77,41 @@ func thin(xs []string, n int) []string {
 		out = append(out, xs[i*len(xs)/n])
 	}
 	return out
+}
+
+// phaseTemplates: one release shape with every combination of the grammar's optional parts.
+func phaseTemplates(eco, tier string) []string {
+	var t []string
+	switch eco {
+	case "pypi":
+		t = expandAll("{d}.{d}(|{[abc]}{d})(|.post{d})(|.dev{d})")
+		if tier == "thorough" {
+			t = append(t, expandAll("{d}(|rc{d})(|.post{d})(|.dev{d})")...)
+		}
+	case "debian":
+		t = expandAll("(|{d}:){d}.{d}(|~{l}{d}|+{l}{d})(|-{d})")
+	case "rpm":
+		t = expandAll("(|{d}:){d}.{d}(|~{l}|^{d})(|-{d})")
+	case "alpine", "gentoo":
+		t = expandAll("{d}.{d}(|{l})(|_alpha{d}|_p{d})(|-r{d})")
+	case "alpm":
+		t = expandAll("(|{d}:){d}.{d}(|{l})(|-{d})")
+	case "maven":
+		t = expandAll("{d}.{d}(|-{l}{l}|-{d}|.{l})(|-{d})")
+	case "gem":
+		t = expandAll("{d}.{d}(|.{d})(|.{l}|.{l}{d})(|-{d})")
+	case "nuget":
+		t = expandAll("{d}.{d}(|.{d}|.{d}.{d})(|-{l}|-{l}.{d})")
+	case "npm", "semver", "cargo", "hex":
+		t = expandAll("{d}.{d}.{d}(|-{l}|-{d}|-{l}.{d})(|+{d})")
+	case "composer":
+		t = expandAll("{d}.{d}(|.{d})(|-alpha{d}|-beta|-RC{d}|-patch{d}|pl{d})")
+	case "golang":
+		t = expandAll("v{d}.{d}.{d}(|-{l}|-{l}.{d})(|+incompatible)")
+	case "conan":
+		t = expandAll("{d}.{d}(|.{d})(|-{l}|-{l}.{d})(|+{d})")
+	case "cran":
+		t = expandAll("{d}.{d}(|.{d}|-{d})(|.{d})")
+	}
+	return t
 }
